@@ -185,13 +185,68 @@ theorem map_length_nonempties {β : Type} : ∀ (runs : List (List β)),
     | nil => simpa [nonempties] using ih
     | cons x xs => simpa [nonempties] using ih
 
-/-- Writing runs to the data file + log and reading them back loses exactly the empty runs. -/
+theorem nextSize_outputSum {r r' : OffsetsReader} {s : Nat} (h : r.nextSize = some (s, r')) :
+    r'.outputSum = r.outputSum + s := by
+  unfold OffsetsReader.nextSize at h
+  split at h
+  · cases h
+  · simp only at h
+    split at h
+    · split at h
+      · split at h
+        · simp only [Option.some.injEq, Prod.mk.injEq] at h
+          obtain ⟨rfl, rfl⟩ := h; rfl
+        · cases h
+      · cases h
+    · simp only [Option.some.injEq, Prod.mk.injEq] at h
+      obtain ⟨rfl, rfl⟩ := h; rfl
+
+/-- (offset, size) pairs for consecutive pieces starting at offset `o` -/
+def offsetsFrom (o : Nat) : List Nat → List (Nat × Nat)
+  | [] => []
+  | s :: ss => (o, s) :: offsetsFrom (o + s) ss
+
+theorem takeAt_eq : ∀ (n : Nat) (r : OffsetsReader),
+    r.takeAt n = (r.take n).map (offsetsFrom r.outputSum)
+  | 0, r => by simp [OffsetsReader.takeAt, OffsetsReader.take, offsetsFrom]
+  | n + 1, r => by
+    unfold OffsetsReader.takeAt OffsetsReader.take
+    cases h : r.nextSize with
+    | none => simp
+    | some p =>
+      obtain ⟨s, r'⟩ := p
+      simp only
+      rw [takeAt_eq n r', nextSize_outputSum h]
+      cases OffsetsReader.take n r' <;> simp [offsetsFrom]
+
+theorem readAt_offsetsFrom {β : Type} (data : List β) : ∀ (lens : List Nat) (o : Nat),
+    (offsetsFrom o lens).map (readAt data) = splitLens lens (data.drop o)
+  | [], _ => rfl
+  | s :: ss, o => by
+    simp only [offsetsFrom, List.map_cons, splitLens, readAt, List.drop_drop]
+    rw [readAt_offsetsFrom data ss (o + s)]
+
+/-- Writing runs to the data file + log and reading them back at the logged offsets loses exactly
+the empty runs. -/
 theorem storeRuns_eq {β : Type} (runs : List (List β)) : storeRuns runs = some (nonempties runs) := by
   obtain ⟨r, h1, _, h3⟩ := offsets_roundtrip_aux (runs.map List.length)
+  have h0 : r.outputSum = 0 := by
+    unfold offsetsEncode Offsets.finish at h1
+    simp only at h1
+    split at h1
+    · simp only [Option.some.injEq] at h1; rw [← h1]
+    · split at h1
+      · split at h1
+        · simp only [Option.some.injEq] at h1; rw [← h1]
+        · cases h1
+      · cases h1
   unfold storeRuns
   rw [h1]
-  simp only [h3]
-  rw [map_length_nonempties, ← flatten_nonempties, splitLens_map_length]
+  simp only
+  unfold offsetsDecode at h3
+  rw [takeAt_eq, h3, h0]
+  simp only [Option.map_some]
+  rw [readAt_offsetsFrom, List.drop_zero, map_length_nonempties, ← flatten_nonempties, splitLens_map_length]
 
 theorem mem_nonempties {β : Type} {runs : List (List β)} {r} : r ∈ nonempties runs ↔ r ∈ runs ∧ r ≠ [] := by
   simp [nonempties, List.isEmpty_iff]
